@@ -34,7 +34,7 @@ m = {
     },
     "engines": claims.ENGINES,
     "checks": checks,
-    "notes": "Design: DESIGN.md (section 0: what is implemented; 10: defects found and fixed; 11: seeded changes; 12: false alarms corrected). Known/fixed defects: known_findings.json. Seeded property-breaking changes (180, five rounds) and which check reports which: seeded/MATRIX.md. The sync-granularity parts (mc_sync) run against a copy of /repo/varlink generated into .target/gen/ by tools/gen_sched_copy.py at every build; hooks in /repo are the add-only cfg(varlink_rust_verif) probes of commit f68e2b7.",
+    "notes": "Design: DESIGN.md (section 0: what is implemented; 10: defects found and fixed; 11: seeded changes; 12: false alarms corrected). Known/fixed defects: known_findings.json. Seeded property-breaking changes (199, five rounds) and which check reports which: seeded/MATRIX.md. The sync-granularity parts (mc_sync) run against a copy of /repo/varlink generated into .target/gen/ by tools/gen_sched_copy.py at every build; hooks in /repo are the add-only cfg(varlink_rust_verif) probes of commit f68e2b7.",
     "not_applicable": na,
 }
 json.dump(m, open(os.path.join(V, "MANIFEST.json"), "w"), indent=1)
